@@ -40,7 +40,7 @@ func whereProgram(e gen.Expr) *gen.Program {
 	return gen.Single(&gen.Pipeline{Source: gen.Ident{Name: "T"}, Ops: []gen.Op{&gen.Where{Kw: "where", Pred: e}}})
 }
 
-var layoutSeps = []string{" ", "", "\n", "\t", " // c ; | \n", " \r\n "}
+var layoutSeps = []string{" ", "", "\n", "\t", " // c ; | \n", " \r\n ", "//\n"}
 
 // grammarMain drives C07 (spans ignored) and the success part of C10 (spans compared).
 func grammarMain(r *run.Runner, spans bool) {
@@ -145,6 +145,15 @@ func grammarMain(r *run.Runner, spans bool) {
 				return !w.Stopped()
 			})
 		}
+	})
+	// scale: many sibling groups, long pipelines, deep nesting
+	scale := scalePrograms()
+	bounds["scale_programs"] = len(scale)
+	bounds["scale_sizes"] = scaleSizes
+	r.Sweep("scale", int64(len(scale)), func(w *run.Worker, item int64) {
+		pr := gen.Print(scale[item])
+		grammarCase(w, pr.Layout(pr.Uniform(" ")), spans, "scale")
+		grammarCase(w, pr.Layout(pr.Uniform("")), spans, "scale")
 	})
 	r.Extra["bounds"] = bounds
 	pr := gen.Print(corpus[len(corpus)/2])
